@@ -156,9 +156,11 @@ def class_case(draw, alg):
     c = {"alg": alg, "sys": s, "seed": draw(st.integers(0, 2**32 - 1)), "noise": draw(st.sampled_from([0.05, 0.3])),
          "N": draw(st.integers(900, 1800)), "br": draw(st.integers(5, 9)), "ordmax": draw(st.integers(4, 12)),
          "conj": draw(st.booleans()),
-         "xi_max": draw(st.one_of(st.sampled_from([0.05, 0.1, 0.2, 1.0]), st.floats(0.01, 1.0))),
-         "mpc_lim": draw(st.one_of(st.sampled_from([0.0, 0.5, 0.7, 0.9]), st.floats(0, 1))),
-         "mpd_lim": draw(st.one_of(st.sampled_from([0.1, 0.3, 0.8, PI2]), st.floats(0.0, PI2))),
+         # every criterion is switched off (neutral value) in a good share of the cases, alone and together
+         "xi_max": draw(st.one_of(st.sampled_from([0.05, 0.1, 0.2, 1.0, 1.0]), st.floats(0.01, 1.0))),
+         "mpc_lim": draw(st.one_of(st.sampled_from([0.0, 0.0, 0.0, 0.5, 0.7, 0.9]), st.floats(0, 1))),
+         "mpd_lim": draw(st.one_of(st.sampled_from([PI2, PI2, PI2, 0.1, 0.3, 0.8]), st.floats(0.0, PI2))),
+         "ordmin": draw(st.sampled_from([0, 0, 1, 2, 3])),
          "cov_max": draw(st.sampled_from([1e-4, 1e-2, 0.2, 1e6])),
          "nxseg": draw(st.sampled_from([128, 256])), "method_SD": draw(st.sampled_from(["per", "cor"])),
          "refsub": draw(st.booleans())}
@@ -235,10 +237,10 @@ def judge_class(case):
     if alg in ("pLSCF", "pLSCF_MS"):
         cls = pLSCF if alg == "pLSCF" else pLSCF_MS
         hcp = {k_: v for k_, v in hc.items() if k_ != "cov_max"}
-        a = cls(name="a", ordmax=case["ordmax"], nxseg=case["nxseg"], method_SD=case["method_SD"], hc=hcp)
+        a = cls(name="a", ordmax=case["ordmax"], ordmin=min(case.get("ordmin", 0), case["ordmax"] - 1), nxseg=case["nxseg"], method_SD=case["method_SD"], hc=hcp)
     else:
         cls = {"SSIdat": SSIdat, "SSIcov": SSIcov, "SSIcov_unc": SSIcov, "SSIcov_R": SSIcov, "SSIdat_MS": SSIdat_MS, "SSIcov_MS": SSIcov_MS}[alg]
-        kw = dict(name="a", br=case["br"], ordmax=case["ordmax"], hc=hc)
+        kw = dict(name="a", br=case["br"], ordmax=case["ordmax"], ordmin=min(case.get("ordmin", 0), case["ordmax"]), hc=hc)
         if alg == "SSIcov_unc":
             kw.update(calc_unc=True, nb=10)
         if alg == "SSIcov_R":
@@ -336,6 +338,17 @@ def judge_class(case):
         j.check(np.array_equal(np.isnan(R["Lam"]), pat), "pattern-lambda", "eigenvalue table has a different NaN pattern")
     if use_cov:
         j.check(R["Fn_cov"] is not None and np.array_equal(np.isnan(R["Fn_cov"]), pat) and np.array_equal(np.isnan(R["Xi_cov"]), pat), "pattern-cov", "covariance tables have a different NaN pattern")
+    # extraction afterwards must leave the pole tables as they are
+    fin_cols = [o for o in range(cols) if np.isfinite(R["Fn"][:, o]).any()]
+    if fin_cols:
+        o = fin_cols[len(fin_cols) // 2]
+        f0 = float(np.nanmin(R["Fn"][:, o]))
+        before = {k_: (None if v is None else np.array(v, copy=True)) for k_, v in R.items()}
+        rm = sut(setup.mpe, "a", sel_freq=[f0], order=int(o), rtol=0.05)
+        if j.check(not raised(rm), "mpe-raises", lambda: f"{rm!r}"):
+            after = dict(Fn=res.Fn_poles, Xi=res.Xi_poles, Phi=res.Phi_poles, Lam=getattr(res, "Lambds", None), Fn_cov=getattr(res, "Fn_poles_cov", None), Xi_cov=getattr(res, "Xi_poles_cov", None))
+            changed_ = [k_ for k_, v in before.items() if v is not None and not np.array_equal(np.asarray(after[k_]), v, equal_nan=True)]
+            j.check(not changed_, "tables-changed-by-mpe", lambda: f"mpe(order={o}) modified the pole tables {changed_}")
     kinds = sum(1 for v in rej.values() if v > 0)
     for k_, v in rej.items():
         if v:
